@@ -141,7 +141,7 @@ impl Property for C01 {
     const ID: &'static str = "C01";
 
     fn families(_tier: Tier) -> u32 {
-        22
+        26
     }
 
     fn strategy(tier: Tier, family: u32) -> BoxedStrategy<Case> {
@@ -244,7 +244,47 @@ impl Property for C01 {
                     c
                 })
                 .boxed(),
-            // > 2 MiB highly compressible (LZMA2 uncompressed-size chunk limit)
+            // about one stored chunk (64 KiB) of incompressible bytes directly followed by low-entropy data: the chunk
+            // that does not compress is a little longer than 64 KiB because of the parser's read-ahead, so the stored
+            // fallback is split into two pieces
+            24 | 25 => assemble(
+                (
+                    prop_oneof![1 => Just(0u32), 1 => 1000u32..300_000],
+                    any::<u64>(),
+                    63_800u32..65_800,
+                    prop_oneof![
+                        (3000u32..40_000, any::<u8>()).prop_map(|(len, byte)| Seg::Const { len, byte }),
+                        (3000u32..40_000, 1u16..40, any::<u64>()).prop_map(|(len, period, seed)| Seg::Periodic { len, period, seed }),
+                        (3000u32..40_000, 2u8..5, any::<u64>()).prop_map(|(len, alphabet, seed)| Seg::Tiles { len, alphabet, seed }),
+                        (3000u32..40_000, any::<u64>()).prop_map(|(len, seed)| Seg::Text { len, seed }),
+                    ],
+                    data_strategy(2, 20_000),
+                )
+                    .prop_map(|(pre, seed, noise, low, tail)| {
+                        let mut segs = vec![];
+                        if pre > 0 {
+                            segs.push(Seg::Text { len: pre, seed: seed ^ 3 });
+                        }
+                        segs.push(Seg::Rand { len: noise, seed });
+                        segs.push(low);
+                        segs.extend(tail.segs);
+                        Data { segs }
+                    })
+                    .boxed(),
+                opts_strategy(1 << 20, true).prop_map(|mut o| {
+                    // three quarters in normal mode (the read-ahead of the optimal parser is what makes the chunk long)
+                    if o.nice_len % 4 != 0 {
+                        o.mode = 1;
+                    }
+                    o
+                })
+                .boxed(),
+                false,
+                plan_strategy(),
+                false,
+            ),
+            // > 2 MiB highly compressible (LZMA2 uncompressed-size chunk limit), behind 0-599 other bytes so that the
+            // symbol boundaries of the long run fall on every residue relative to the limit
             _ => assemble(
                 (
                     2_100_000u32..2_400_000,
@@ -254,9 +294,14 @@ impl Property for C01 {
                         any::<u64>().prop_map(|s| (2u8, s))
                     ],
                     data_strategy(2, 5000),
+                    prop_oneof![1 => Just(0u32), 6 => 1u32..600],
                 )
-                    .prop_map(|(len, (k, s), tail)| {
-                        let mut segs = vec![match k {
+                    .prop_map(|(len, (k, s), tail, prefix)| {
+                        let mut segs = vec![];
+                        if prefix > 0 {
+                            segs.push(Seg::Rand { len: prefix, seed: s ^ 0x55 });
+                        }
+                        segs.push(match k {
                             0 => Seg::Const { len, byte: s as u8 },
                             1 => Seg::Periodic {
                                 len,
@@ -264,13 +309,14 @@ impl Property for C01 {
                                 seed: s,
                             },
                             _ => Seg::Text { len, seed: s },
-                        }];
+                        });
                         segs.extend(tail.segs);
                         Data { segs }
                     })
                     .boxed(),
                 opts_strategy(1 << 20, true),
-                false,
+                // the chunk limit is LZMA2's: two of the three families of this kind use the LZMA2 writer only
+                family != 19,
                 Just(Plan::All).boxed(),
                 false,
             ),
